@@ -280,6 +280,9 @@ def _run_case(case):
         if "glyf" not in font and "CFF " not in font:
             out["skips"].append("input without glyf/CFF outlines")
             return out
+        if "VARC" in font:
+            out["skips"].append("out of domain: outlines composed by a VARC table (no merge policy: dropped, DropsUnknownTables)")
+            return out
         af, info = project(font, intern, layout=model or case.get("layout", False))
         info["shaping_tables"] = [t for t in SHAPING_TABLES if t in font]
         info["gdef_classes"] = "GDEF" in font and font["GDEF"].table.GlyphClassDef is not None and bool(font["GDEF"].table.GlyphClassDef.classDefs)
